@@ -29,8 +29,10 @@ class StatsRun:
         ch = self.ch
         timecode = bool(ch.pick("cfg.timecode", 2))
         lvl = ch.weighted("cfg.loglevel", [(3, logging.ERROR), (2, logging.INFO)])
-        self.res.config = dict(timecode=timecode, loglevel=lvl, forced=self.forced)
-        self.w = World(ch, timecode=timecode, log_level=lvl, send_msg_timing=True, p_notwritable=(0, 1))
+        self.timing_on = not ch.flag("cfg.timing_off", 1, 4)     # the manager's -T switch
+        self.res.config = dict(timecode=timecode, loglevel=lvl, timing=self.timing_on, forced=self.forced)
+        self.w = World(ch, timecode=timecode, log_level=lvl, send_msg_timing=self.timing_on, p_notwritable=(0, 1),
+                       max_rounds=600000)
         w = self.w
         w.patch()
         w.start_manager()
@@ -202,6 +204,10 @@ class StatsRun:
         # ---------------- TIMING
         timing = [w_ for w_ in mon_tx if w_.hdr.msg_type == C.MT_TIMING_MESSAGE and w_.hdr.src_mod_id == 0
                   and w_.hdr.send_time < TAG_BASE]
+        if not self.timing_on:
+            res.probes["timing_switched_off"] += 1
+            if timing:
+                res.add("C18", "timing_sent_although_disabled", "TIMING_MESSAGE published with send_msg_timing off")
         prev = None
         for wfr in timing:
             if prev is None or prev.seq < view_from:
@@ -309,6 +315,22 @@ class StatsRun:
             if ss != list(range(1, len(ss) + 1)):
                 res.probes["traffic_subseq_irregular"] += 1
             prev_seq = subs[-1][0].seq
+        # nothing that was handled may stay unreported: the run ends with a full reporting period
+        client_events = [(s_, t_) for (s_, t_, o_) in events if o_ == "client" and s_ > view_from]
+        if client_events:
+            last_traffic = max((g[0][0].seq for g in groups.values()), default=None)
+            unreported = [e for e in client_events if last_traffic is None or e[0] > last_traffic]
+            if unreported:
+                res.add("C18", "traffic_never_reported",
+                        f"{len(unreported)} forwarded messages (first: type {unreported[0][1]}) were followed by a full "
+                        f"reporting period but no MESSAGE_TRAFFIC report covers them "
+                        f"({len(groups)} reports in the run)")
+            if self.timing_on:
+                last_timing = max((w_.seq for w_ in timing), default=None)
+                unrep = [e for e in client_events if last_timing is None or e[0] > last_timing]
+                if unrep:
+                    res.add("C18", "timing_never_reported", f"{len(unrep)} forwarded messages are covered by no "
+                                                            f"TIMING_MESSAGE although a full period elapsed")
 
 
 def run(choices, forced=None) -> RunResult:
